@@ -1,17 +1,25 @@
 From Coq Require Import List String.
-From Verif Require Import Base Dispatch DispatchVM.
+From Verif Require Import Base Dispatch DispatchVM DispatchPoly DispatchTorch.
 Import ListNotations.
 Open Scope string_scope.
+
+(* every Dispatch*.v contributes one handler; the first that recognises the command answers *)
+Definition handlers : list (string -> list sexp -> option string) :=
+  [handle_sev; handle_vm; handle_poly; handle_torch].
+
+Fixpoint first_some (hs : list (string -> list sexp -> option string)) (cmd : string)
+         (args : list sexp) : option string :=
+  match hs with
+  | [] => None
+  | h :: r => match h cmd args with Some x => Some x | None => first_some r cmd args end
+  end.
 
 Definition handle (s : sexp) : string :=
   match s with
   | SList (Atom cmd :: args) =>
-      match handle_sev cmd args with
-      | Some r => r
-      | None =>
-      match handle_vm cmd args with
+      match first_some handlers cmd args with
       | Some r => r
       | None => "!unknown-or-malformed " ++ cmd
-      end end
+      end
   | _ => "!malformed"
   end.
